@@ -14,6 +14,7 @@ import (
 	"os/signal"
 	"sort"
 	"strings"
+	"sync"
 	"syscall"
 	"time"
 
@@ -35,6 +36,7 @@ type e2eCase struct {
 	Stderr  string     `json:"stderr,omitempty"`
 	Skipped string     `json:"skipped,omitempty"`
 	Seed    int64      `json:"case_seed"`
+	Local   string     `json:"local,omitempty"` // prefix made local to the namespace (application scans)
 }
 
 func htons(v uint16) uint16 { return v<<8 | v>>8 }
@@ -116,6 +118,42 @@ func sniff(iface, proto, path string) {
 	os.WriteFile(path, []byte(sortKeys(keys)), 0o644)
 }
 
+// listen accepts TCP connections on the given ports (all local addresses) until SIGTERM and writes the
+// sorted (local address, port) keys of the connections it accepted to path.
+func listen(ports string, path string) {
+	var mu sync.Mutex
+	var keys [][]byte
+	for _, ps := range strings.Split(ports, ",") {
+		ln, err := net.Listen("tcp4", "0.0.0.0:"+ps)
+		if err != nil {
+			fmt.Fprintln(os.Stderr, err)
+			os.Exit(2)
+		}
+		go func(ln net.Listener) {
+			for {
+				c, err := ln.Accept()
+				if err != nil {
+					return
+				}
+				a := c.LocalAddr().(*net.TCPAddr)
+				ip := a.IP.To4()
+				mu.Lock()
+				keys = append(keys, []byte{ip[0], ip[1], ip[2], ip[3], byte(a.Port >> 8), byte(a.Port)})
+				mu.Unlock()
+				c.Close()
+			}
+		}(ln)
+	}
+	stop := make(chan os.Signal, 1)
+	signal.Notify(stop, syscall.SIGTERM)
+	fmt.Println("ready")
+	<-stop
+	time.Sleep(30 * time.Millisecond)
+	mu.Lock()
+	os.WriteFile(path, []byte(sortKeys(keys)), 0o644)
+	mu.Unlock()
+}
+
 func sh(args ...string) error {
 	out, err := exec.Command(args[0], args[1:]...).CombinedOutput()
 	if err != nil {
@@ -146,6 +184,16 @@ func runE2E(sx string, c *e2eCase, idx int) {
 	}
 	frames := fmt.Sprintf("%s/frames%d.txt", tmpDir, idx)
 	sn := exec.Command("ip", "netns", "exec", ns, os.Args[0], "-sniff", "v1", "-proto", c.Proto, "-out", frames)
+	if strings.HasPrefix(c.Proto, "listen:") {
+		// application scans: the targets are local addresses of the namespace, a listener is the log
+		for _, a := range strings.Split(c.Local, ",") {
+			if err := sh("ip", "-n", ns, "addr", "add", a+"/32", "dev", "lo"); err != nil {
+				c.Skipped = err.Error()
+				return
+			}
+		}
+		sn = exec.Command("ip", "netns", "exec", ns, os.Args[0], "-listen", strings.TrimPrefix(c.Proto, "listen:"), "-out", frames)
+	}
 	so, _ := sn.StdoutPipe()
 	sn.Stderr = os.Stderr
 	if err := sn.Start(); err != nil {
@@ -297,6 +345,19 @@ func e2eCases(r *hlib.SplitMix64, n int) []e2eCase {
 		{
 			a := o | 160
 			mk("arp:subnet", "arp", cat([]string{"arp"}, common, []string{tgt.Dotted(a) + "/28"}), crossWant(seq(a, 16), []int{0}), "")
+		}
+		// 8. socks over local addresses with a listener as the log
+		{
+			a := o | 224
+			ex := tgt.WriteTemp(tmpDir, fmt.Sprintf("exs%d.txt", round), tgt.Dotted(a+2)+"/31\n")
+			addrs := append(seq(a, 2), seq(a+4, 4)...)
+			mk("socks:subnet", "listen:1080,1081,1090", []string{"socks", "--exit-delay", "150ms", "--json", "-t", "500ms", "-w", "8",
+				"--exclude", ex, "-p", "1080-1081,1090", tgt.Dotted(a) + "/29"}, crossWant(addrs, []int{1080, 1081, 1090}), "")
+			var loc []string
+			for _, x := range seq(a, 8) {
+				loc = append(loc, tgt.Dotted(x))
+			}
+			cs[len(cs)-1].Local = strings.Join(loc, ",")
 		}
 		// 7. icmp
 		{
